@@ -147,6 +147,19 @@ func TestVerif_C10(t *testing.T) {
 		// first snapshot is forgotten, so the blobs the remaining snapshots need share their pack with unneeded
 		// ones; later copies of such blobs are crafted into further packs (vc10CraftDupPacks)
 		crafted := hi%5 == 1 || hi%5 == 2
+		// two thirds of the histories: an unchanged sub-directory in every backup, so snapshots share sub-trees and
+		// data blobs and the tree and data packs of a forgotten snapshot stay partly needed
+		stable := hi%3 != 0
+		stableFiles := []vFile{{Path: "stable/s1", Size: 3000 + int(seed%1000), Seed: seed, Kind: "rand"},
+			{Path: "stable/sub/s2", Size: 12000, Seed: seed + 1, Kind: "text"}}
+		// the directory is written once and moved into the source tree for every backup (vWriteTree recreates the
+		// tree, which changes inodes and ctimes and with them every tree blob)
+		stableKeep := filepath.Join(e.base, "stable-keep")
+		if stable {
+			vWriteTree(t, stableKeep, []vFile{{Path: "s1", Size: stableFiles[0].Size, Seed: seed, Kind: "rand"}, {Path: "sub/s2", Size: 12000, Seed: seed + 1, Kind: "text"}})
+		}
+		putStable := func() { _ = os.Rename(stableKeep, filepath.Join(src, "stable")) }
+		takeStable := func() { _ = os.Rename(filepath.Join(src, "stable"), stableKeep) }
 		var prev []vFile
 		for i := 0; i < nb && !bad; i++ {
 			files := vGenFiles(r, 2+r.Intn(5), 12, big)
@@ -167,11 +180,19 @@ func TestVerif_C10(t *testing.T) {
 			}
 			prev = files
 			vWriteTree(t, src, files)
+			if stable {
+				files = append(append([]vFile{}, files...), stableFiles...)
+				putStable()
+			}
 			before := map[string]map[string]string{}
 			for k, v := range want {
 				before[k] = v
 			}
-			if err := e.backup(src, []string{"."}, BackupOptions{}); err != nil {
+			err := e.backup(src, []string{"."}, BackupOptions{})
+			if stable {
+				takeStable()
+			}
+			if err != nil {
 				res.Problem("history %d backup: %v", seed, err)
 				bad = true
 				break
@@ -256,6 +277,9 @@ func TestVerif_C10(t *testing.T) {
 			lay := vc10Layout{packs: 1 + r.Intn(3), companions: "used+junk", perPack: 1 + r.Intn(3), trees: r.Intn(3) == 0}
 			if hi%5 == 2 {
 				lay.companions = "random"
+			} else {
+				// at least two crafted packs that are partly used whichever copy prune elects
+				lay.packs = 2 + r.Intn(2)
 			}
 			ufiles, desc, err := vc10CraftDupPacks(t, e, lay, r)
 			if err != nil {
@@ -266,6 +290,10 @@ func TestVerif_C10(t *testing.T) {
 			if len(ufiles) > 0 {
 				files := append(append([]vFile{}, ufiles...), vGenFiles(r, 1+r.Intn(3), 12, false)...)
 				vWriteTree(t, src, files)
+				if stable {
+					files = append(files, stableFiles...)
+					putStable()
+				}
 				before := map[string]map[string]string{}
 				for k, v := range want {
 					before[k] = v
@@ -275,7 +303,11 @@ func TestVerif_C10(t *testing.T) {
 						before[id] = nil
 					}
 				}
-				if err := e.backup(src, []string{"."}, BackupOptions{}); err != nil {
+				err := e.backup(src, []string{"."}, BackupOptions{})
+				if stable {
+					takeStable()
+				}
+				if err != nil {
 					res.Problem("history %d backup after crafting: %v", seed, err)
 					continue
 				}
@@ -334,10 +366,7 @@ func TestVerif_C10(t *testing.T) {
 			}
 			res.Count("kind_"+k, 1)
 		}
-		if os.Getenv("VERIF_C10_DEBUG") != "" {
-			fmt.Fprintf(os.Stderr, "C10DBG %d %v %+v\n", seed, kinds, vStatsEv(*stats))
-		}
-		res.Sample(map[string]any{"history": seed, "version": version, "backups": nb, "waste": kinds, "stats": vStatsEv(*stats)})
+res.Sample(map[string]any{"history": seed, "version": version, "backups": nb, "waste": kinds, "stable_subdirectory": stable, "stats": vStatsEv(*stats)})
 		tr.Write(kit.Ev{"ev": "Reset", "proc": "env", "history": seed, "desc": strings.Join(kinds, ",")})
 		vWriteTrace(tr, e.trace(false))
 	}
